@@ -37,6 +37,8 @@ type dupOutcome struct {
 	sealedN  int
 	awaiting bool
 	final    snapshot
+	// the second seal attempt passed CreateLeaf's unlocked index pre-check and was refused by saveTrxInVertex under the lock
+	guardInsideLock bool
 }
 
 func dupBody(sc dupScenario) func(x *sched.X) {
@@ -70,7 +72,12 @@ func dupBody(sc dupScenario) func(x *sched.X) {
 		o.final = fx.snap()
 		o.sealedN = count(o.final.ledger, sc.target)
 		o.awaiting = count(o.final.trxs, sc.target) > 0 || count(o.final.lists["A"], sc.target) > 0 || count(o.final.lists["B"], sc.target) > 0
-		x.Obsf("%s=%s %s=%s sealed=%d awaiting=%v %s", sc.calls[0], o.results[0], sc.calls[1], o.results[1], o.sealedN, o.awaiting, o.final.stateOf())
+		for _, e := range fx.f.Log.Errors {
+			if strings.Contains(e, "vertex create failed saving transaction") {
+				o.guardInsideLock = true
+			}
+		}
+		x.Obsf("%s=%s %s=%s sealed=%d awaiting=%v refused-by-guard-under-lock=%v %s", sc.calls[0], o.results[0], sc.calls[1], o.results[1], o.sealedN, o.awaiting, o.guardInsideLock, o.final.stateOf())
 	}
 }
 
@@ -134,12 +141,13 @@ func c16Scenarios() map[string]*sched.Scenario {
 					schedFx = newFixture()
 				}
 				schedFx.setup()
+				schedFx.f.Log.Keep = true
 			},
-			// non-vacuity: executions in which both calls got past the awaiting cache / index pre-check, i.e. the
-			// interleavings the guard inside the ledger has to catch, show up as two "ok|processing" answers
+			// non-vacuity: executions in which both calls got past the unlocked "transaction already in a vertex"
+			// pre-check of CreateLeaf, so that only the index guard under the ledger lock refused the second seal
 			Interesting: func(x *sched.X, r *vsched.Result) bool {
 				o, _ := x.Vars["o"].(*dupOutcome)
-				return o != nil && o.results[0] != "ok" || o != nil && o.results[1] != "ok"
+				return o != nil && o.guardInsideLock
 			}}
 	}
 	return m
